@@ -1,5 +1,6 @@
 // C16 harness: tensor indexing / views / slices / reshape / gather / integral / remove_if / stack on the real headers.
 #include "common.h"
+#include <array>
 #include <nano/tensor.h>
 #include <nano/tensor/algorithm.h>
 #include <nano/tensor/integral.h>
@@ -188,20 +189,72 @@ std::string op_sub_typed(const std::string& what, const std::string& type, const
     throw bad_op("type");
 }
 
-// ---- slice, gather, reshape ---------------------------------------------------------------------------
-template <size_t trank>
-std::string op_slice(const ivec& d, int64_t b, int64_t e)
+// ---- slice, gather, reshape, segment --------------------------------------------------------------------
+// `how` selects the storage / overload the accessor is called on: the owning tensor ("mem", const: "cmem"),
+// a mutable map ("map"), a constant map ("cmap"), or the tensor_range_t overload ("range").
+template <size_t trank, class tfun>
+std::string with_storage(const ivec& d, const std::string& how, const tfun& fun)
 {
-    const auto t = make_iota<int64_t, trank>(d);
-    const auto s = t.slice(b, e);
-    out_t      out;
-    out << "ok" << static_cast<long long>(s.data() - t.data());
-    print_tensor(out, s);
-    return out.str();
+    auto                                t = make_iota<int64_t, trank>(d);
+    const tensor_mem_t<int64_t, trank>& ct = t;
+    tensor_map_t<int64_t, trank>        m  = t.tensor();
+    tensor_cmap_t<int64_t, trank>       c  = m;
+    if (how == "mem")
+    {
+        return fun(t, t.data());
+    }
+    if (how == "cmem")
+    {
+        return fun(ct, t.data());
+    }
+    if (how == "map")
+    {
+        return fun(m, t.data());
+    }
+    if (how == "cmap")
+    {
+        return fun(c, t.data());
+    }
+    throw bad_op("storage");
 }
 
 template <size_t trank>
-std::string op_gather(const ivec& d, const ivec& idx)
+std::string op_slice(const ivec& d, int64_t b, int64_t e, const std::string& how)
+{
+    const auto print = [&](const auto& s, const int64_t* base)
+    {
+        out_t out;
+        out << "ok" << static_cast<long long>(s.data() - base);
+        print_tensor(out, s);
+        return out.str();
+    };
+    if (how == "range")
+    {
+        return with_storage<trank>(d, "mem", [&](auto& t, const int64_t* base)
+                                   { return print(t.slice(make_range(b, e)), base); });
+    }
+    return with_storage<trank>(d, how, [&](auto& t, const int64_t* base) { return print(t.slice(b, e), base); });
+}
+
+std::string op_segment(const ivec& d, int64_t b, int64_t len, const std::string& how)
+{
+    return with_storage<1>(d, how,
+                           [&](auto& t, const int64_t* base)
+                           {
+                               const auto v = t.segment(b, len);
+                               out_t      out;
+                               out << "ok" << static_cast<long long>(v.data() - base);
+                               out << 1 << static_cast<long long>(v.size()) << static_cast<long long>(v.size());
+                               for (Eigen::Index i = 0; i < v.size(); ++i)
+                               {
+                                   out << static_cast<long long>(v(i));
+                               }
+                               return out.str();
+                           });
+}
+
+template <size_t trank, class treturn>
+std::string op_gather_as(const ivec& d, const ivec& idx)
 {
     const auto t = make_iota<int64_t, trank>(d);
     indices_t  indices(static_cast<tensor_size_t>(idx.size()));
@@ -209,34 +262,49 @@ std::string op_gather(const ivec& d, const ivec& idx)
     {
         indices(static_cast<tensor_size_t>(i)) = idx[i];
     }
-    const auto s = t.indexed(indices);
-    out_t      out;
+    const tensor_mem_t<treturn, trank> s = t.template indexed<treturn>(indices);
+    out_t                              out;
     out << "ok";
     print_tensor(out, s);
     return out.str();
 }
 
-template <size_t trank, size_t K>
-std::string op_reshape_k(const ivec& d, const ivec& sizes)
+template <size_t trank>
+std::string op_gather(const ivec& d, const ivec& idx, const std::string& rtype)
 {
-    const auto t = make_iota<int64_t, trank>(d);
-    const auto s = call_with<K>([&](auto... i) { return t.reshape(i...); }, sizes);
-    out_t      out;
-    out << "ok" << static_cast<long long>(s.data() - t.data());
-    print_tensor(out, s);
-    return out.str();
+    if (rtype == "i64") return op_gather_as<trank, int64_t>(d, idx);
+    if (rtype == "i32") return op_gather_as<trank, int32_t>(d, idx);
+    if (rtype == "i8") return op_gather_as<trank, int8_t>(d, idx);
+    if (rtype == "u16") return op_gather_as<trank, uint16_t>(d, idx);
+    if (rtype == "f32") return op_gather_as<trank, float>(d, idx);
+    if (rtype == "f64") return op_gather_as<trank, double>(d, idx);
+    throw bad_op("return type");
+}
+
+template <size_t trank, size_t K>
+std::string op_reshape_k(const ivec& d, const ivec& sizes, const std::string& how)
+{
+    return with_storage<trank>(d, how,
+                               [&](auto& t, const int64_t* base)
+                               {
+                                   const auto s = call_with<K>([&](auto... i) { return t.reshape(i...); }, sizes);
+                                   out_t      out;
+                                   out << "ok" << static_cast<long long>(s.data() - base);
+                                   print_tensor(out, s);
+                                   return out.str();
+                               });
 }
 
 template <size_t trank>
-std::string op_reshape(const ivec& d, const ivec& sizes)
+std::string op_reshape(const ivec& d, const ivec& sizes, const std::string& how)
 {
     switch (sizes.size())
     {
-    case 1: return op_reshape_k<trank, 1>(d, sizes);
-    case 2: return op_reshape_k<trank, 2>(d, sizes);
-    case 3: return op_reshape_k<trank, 3>(d, sizes);
-    case 4: return op_reshape_k<trank, 4>(d, sizes);
-    case 5: return op_reshape_k<trank, 5>(d, sizes);
+    case 1: return op_reshape_k<trank, 1>(d, sizes, how);
+    case 2: return op_reshape_k<trank, 2>(d, sizes, how);
+    case 3: return op_reshape_k<trank, 3>(d, sizes, how);
+    case 4: return op_reshape_k<trank, 4>(d, sizes, how);
+    case 5: return op_reshape_k<trank, 5>(d, sizes, how);
     default: throw bad_op("reshape rank");
     }
 }
@@ -332,6 +400,45 @@ std::string op_stackvec(int64_t n, const std::vector<ivec>& blocks)
     return out.str();
 }
 
+// matrix form of nano::stack: up to 4 rank-2 int64 blocks given in row-major fashion
+std::string op_stackmat(int64_t rows, int64_t cols, const std::vector<std::array<int64_t, 2>>& bdims,
+                        const std::vector<ivec>& bdata)
+{
+    std::vector<tensor_mem_t<int64_t, 2>> bs;
+    for (size_t k = 0; k < bdims.size(); ++k)
+    {
+        tensor_mem_t<int64_t, 2> t(static_cast<tensor_size_t>(bdims[k][0]), static_cast<tensor_size_t>(bdims[k][1]));
+        if (static_cast<size_t>(t.size()) != bdata[k].size())
+        {
+            throw bad_op("block data size");
+        }
+        for (tensor_size_t i = 0; i < t.size(); ++i)
+        {
+            t(i) = bdata[k][static_cast<size_t>(i)];
+        }
+        bs.push_back(t);
+    }
+    tensor_mem_t<int64_t, 2> m;
+    switch (bs.size())
+    {
+    case 1: m = nano::stack<int64_t>(rows, cols, bs[0]); break;
+    case 2: m = nano::stack<int64_t>(rows, cols, bs[0], bs[1]); break;
+    case 3: m = nano::stack<int64_t>(rows, cols, bs[0], bs[1], bs[2]); break;
+    case 4: m = nano::stack<int64_t>(rows, cols, bs[0], bs[1], bs[2], bs[3]); break;
+    default: throw bad_op("stack arity");
+    }
+    out_t out;
+    out << "ok" << m.rows() << m.cols() << m.size();
+    for (tensor_size_t r = 0; r < m.rows(); ++r)
+    {
+        for (tensor_size_t c = 0; c < m.cols(); ++c)
+        {
+            out << m(r, c);
+        }
+    }
+    return out.str();
+}
+
 template <size_t trank>
 std::string dispatch(const std::string& op, toks_t& toks, const ivec& d)
 {
@@ -354,15 +461,27 @@ std::string dispatch(const std::string& op, toks_t& toks, const ivec& d)
     {
         const auto b = toks.i64();
         const auto e = toks.i64();
-        return op_slice<trank>(d, b, e);
+        return op_slice<trank>(d, b, e, toks.done() ? std::string("mem") : toks.s());
+    }
+    if (op == "segment")
+    {
+        if constexpr (trank == 1)
+        {
+            const auto b   = toks.i64();
+            const auto len = toks.i64();
+            return op_segment(d, b, len, toks.done() ? std::string("mem") : toks.s());
+        }
+        throw bad_op("segment needs rank 1");
     }
     if (op == "gather")
     {
-        return op_gather<trank>(d, toks.ints());
+        const auto idx = toks.ints();
+        return op_gather<trank>(d, idx, toks.done() ? std::string("i64") : toks.s());
     }
     if (op == "reshape")
     {
-        return op_reshape<trank>(d, toks.ints());
+        const auto sizes = toks.ints();
+        return op_reshape<trank>(d, sizes, toks.done() ? std::string("mem") : toks.s());
     }
     if (op == "integral")
     {
@@ -398,6 +517,22 @@ std::string vh::execute(toks_t& toks, std::string&)
             blocks.push_back(toks.ints());
         }
         return op_stackvec(n, blocks);
+    }
+    if (op == "stackmat")
+    {
+        const auto                           rows = toks.i64();
+        const auto                           cols = toks.i64();
+        const auto                           nb   = toks.i64();
+        std::vector<std::array<int64_t, 2>> bdims;
+        std::vector<ivec>                    bdata;
+        for (int64_t i = 0; i < nb; ++i)
+        {
+            const auto br = toks.i64();
+            const auto bc = toks.i64();
+            bdims.push_back({br, bc});
+            bdata.push_back(toks.ints());
+        }
+        return op_stackmat(rows, cols, bdims, bdata);
     }
     const auto d = toks.ints();
     switch (d.size())
